@@ -34,6 +34,14 @@ type WriteCase struct {
 	Elsewhere bool `json:"elsewhere,omitempty"`
 	// BadName: --spokfile names an existing file called Spokfile (wrong case): spok must refuse it
 	BadName bool `json:"bad_name,omitempty"`
+	// Prior: the same invocation is made this many times before the one that is judged; EditDep:
+	// main.go (a file the tasks' glob dependency matches) is rewritten before the judged invocation,
+	// so that tasks which were skipped run again. bin/out, a declared output, exists all along.
+	Prior   int  `json:"prior,omitempty"`
+	EditDep bool `json:"edit_dep,omitempty"`
+	// InitElsewhere: `spok --init --spokfile ../../spokfile` from nested/dir: --init creates a spokfile
+	// in the working directory or refuses; the spokfile the other flag points at is none of its business
+	InitElsewhere bool `json:"init_elsewhere,omitempty"`
 }
 
 var writeTreePool = []string{"main.go", "pkg/a.go", "pkg/sub/b.go", "docs/readme.md", "nested/dir/x.txt", "Makefile", "data/", "nested/.hidden", "spokfile.tmp", "spokfile.bak", ".spokfile.swp", "spokfile~"}
@@ -115,6 +123,17 @@ func genWrite(t *rapid.T) WriteCase {
 			c.Flags = append(c.Flags, f)
 		}
 	}
+	if c.Class == "valid" && !hasFlag(c.Flags, "--init") && rapid.IntRange(0, 2).Draw(t, "history") == 0 {
+		c.Prior = rapid.IntRange(1, 2).Draw(t, "prior")
+		c.EditDep = rapid.Bool().Draw(t, "edit_dep")
+	}
+	if c.Class != "absent" && rapid.IntRange(0, 9).Draw(t, "init_elsewhere") == 0 {
+		c.InitElsewhere = true
+		if !hasFlag(c.Flags, "--init") {
+			c.Flags = append(c.Flags, "--init")
+		}
+		c.Prior, c.EditDep, c.Nested = 0, false, true
+	}
 	nt := rapid.IntRange(0, 2).Draw(t, "ntasks")
 	for i := 0; i < nt; i++ {
 		pool := append([]string{"nosuchtask"}, taskNames...)
@@ -143,6 +162,9 @@ func execWrite(s *ev.Shard, b *sandbox.Box, c WriteCase) *rp.Fail {
 		} else {
 			files["spokfile"] = c.Src
 		}
+	}
+	if c.Class == "valid" {
+		files["bin/out"] = "an artifact of an earlier build\n"
 	}
 	if c.Class == "valid" && !c.SpokLink {
 		files["conf/Spokfile"] = c.Src
@@ -176,12 +198,28 @@ func execWrite(s *ev.Shard, b *sandbox.Box, c WriteCase) *rp.Fail {
 		cwd, cwdRel = filepath.Join(b.Proj, "nested", "dir"), "proj/nested/dir"
 	}
 	size := len(c.Flags) + len(c.Tasks) + len(c.Src)/20 + len(c.Tree)/3
+	args := append(append([]string(nil), c.Flags...), c.Tasks...)
+	if c.Prior > 0 && !hasFlag(c.Flags, "--init") {
+		for k := 0; k < c.Prior; k++ {
+			if r0 := b.Run(cwd, nil, runTimeout, args...); r0.TimedOut {
+				return &rp.Fail{Sig: "harness", Msg: "spok timed out"}
+			}
+		}
+		if c.EditDep {
+			if err := sandbox.Write(b.Proj, "main.go", "// main.go, edited\n"); err != nil {
+				return &rp.Fail{Sig: "harness", Msg: err.Error()}
+			}
+			_ = b.Own()
+		}
+	}
 	before, err := sandbox.Snapshot(b.Home)
 	if err != nil {
 		return &rp.Fail{Sig: "harness", Msg: err.Error()}
 	}
-	args := append(append([]string(nil), c.Flags...), c.Tasks...)
-	if c.Elsewhere && c.Class != "absent" && !hasFlag(c.Flags, "--init") {
+	if c.InitElsewhere {
+		args = append([]string{"--spokfile", "../../spokfile"}, args...)
+	}
+	if c.Elsewhere && c.Class != "absent" && !hasFlag(c.Flags, "--init") && c.Prior == 0 {
 		// everything spok may touch still sits next to the spokfile, not in the working directory
 		cwd, cwdRel = filepath.Join(b.Home, "elsewhere"), "elsewhere"
 		args = append([]string{"--spokfile", filepath.Join(b.Proj, "spokfile")}, args...)
@@ -201,6 +239,9 @@ func execWrite(s *ev.Shard, b *sandbox.Box, c WriteCase) *rp.Fail {
 	}
 	changes := sandbox.Diff(before, after)
 	desc := fmt.Sprintf("tree %v, spokfile class %s %q, cwd %s: `spok %s` (exit %d)", c.Tree, c.Class, c.Src, cwdRel, strings.Join(args, " "), res.Exit)
+	if c.Prior > 0 {
+		desc = fmt.Sprintf("tree %v, spokfile class %s %q, cwd %s: `spok %s` (exit %d) after %d earlier invocation(s) of the same kind%s", c.Tree, c.Class, c.Src, cwdRel, strings.Join(args, " "), res.Exit, c.Prior, map[bool]string{true: " and an edit of main.go"}[c.EditDep])
+	}
 
 	// what may change
 	allowed := map[string]string{} // path -> what is allowed
